@@ -51,6 +51,8 @@ SIG_Q3 = R("sig_q3", "sig_q3.cfg", rounds=2, expect_ops=["add_signature", "sign"
 SIG_T = R("sig_t", "sig_t.cfg", rounds=2, timeout=3000, expect_ops=["add_signature", "sign", "forge_signed", "obs_verify", "elide_set", "uncompress", "encode_decode"])
 RECIPIENT_Q = R("recipient_q", "recipient_q.cfg", rounds=4, expect_ops=["encrypt_subject_to_recipients", "encrypt_to_recipient", "seal", "unseal", "add_recipient", "share_with", "decrypt_subject_to_recipient", "decrypt_to_recipient"],
                 expect_out=["decrypt_subject_to_recipient:ok", "decrypt_subject_to_recipient:err", "unseal:ok", "unseal:err"])
+RECIPIENT_Q2 = R("recipient_q2", "recipient_q2.cfg", rounds=3, expect_ops=["elide_set", "compress_subject", "encrypt_subject_to_recipients", "encrypt_to_recipient", "seal", "decrypt_subject_to_recipient"],
+                 expect_out=["decrypt_subject_to_recipient:ok"])
 SSKR_Q = R("sskr_q", "sskr_q.cfg", expect_ops=["sskr_split_join"], expect_out=["sskr_split_join:ok", "sskr_split_join:err"])
 SSKR_MIX_Q = R("sskr_mix_q", "sskr_mix_q.cfg", expect_ops=["sskr_split_pick", "sskr_pick_more", "sskr_join"], expect_out=["sskr_join:ok", "sskr_join:err"])
 PROOF_Q = R("proof_q", "proof_q.cfg", expect_ops=["proof_contains_set", "obs_confirm"], expect_out=["proof_contains_set:ok", "proof_contains_set:err"])
@@ -161,9 +163,9 @@ PLAN = {
         thorough=[SIG_Q, SIG_Q2, SIG_Q3, SIG_T, DEEP_X_T],
     ),
     "C10": dict(
-        rule="shapes x recipient lists of length 1-2 over {r1,r2} (X25519 / ML-KEM512 / ML-KEM768 per chain, duplicates allowed) x {encrypt_subject_to_recipients, encrypt_to_recipient, seal} then add_recipient / re-sharing by an existing recipient / another assertion, then decrypt_subject_to_recipient / decrypt_to_recipient / unseal with each private key and sender",
-        quick=[RECIPIENT_Q],
-        thorough=[RECIPIENT_Q, dict(RECIPIENT_Q, name="recipient_t", cfg="recipient_t.cfg", rounds=2, timeout=3000), DEEP_X_T],
+        rule="shapes x recipient lists of length 1-2 over {r1,r2} (X25519 / ML-KEM512 / ML-KEM768 per chain, duplicates allowed) x {encrypt_subject_to_recipients, encrypt_to_recipient, seal} then add_recipient / re-sharing by an existing recipient / another assertion, or (recipient_q2) elision / compression of the subject or of other parts BEFORE the encryption, then decrypt_subject_to_recipient / decrypt_to_recipient / unseal with each private key and sender",
+        quick=[RECIPIENT_Q, RECIPIENT_Q2],
+        thorough=[RECIPIENT_Q, RECIPIENT_Q2, dict(RECIPIENT_Q, name="recipient_t", cfg="recipient_t.cfg", rounds=2, timeout=3000), DEEP_X_T],
     ),
     "C11": dict(
         rule="every SSKR policy with <= 2 groups of <= 3 members (78 policies) x every subset of the generated shares x shapes; shares of two splits mixed in registers (same key / different key / decrypted copy)",
